@@ -90,6 +90,7 @@ func runC08(c *Ctx) {
 		var spent []biscuit.BlockBuilder // builders whose Build() was already called
 		rd := &detRand{r.Fork()}
 		callerTable := &datalog.SymbolTable{}
+		sharedDecoder := &biscuit.Unmarshaler{Symbols: &datalog.SymbolTable{}}
 		sym := 0
 		freshFact := func() Pred {
 			sym++
@@ -249,11 +250,20 @@ func runC08(c *Ctx) {
 			case k < 18 && len(toks) > 0:
 				p := Pick(r, toks)
 				if d, err := p.tok.Serialize(); err == nil {
-					if nt, err := biscuit.Unmarshal(d); err == nil {
+					// half of the reloads go through ONE Unmarshaler value kept for the whole history
+					// (an application-wide decoder): the tokens it returns are siblings of a kind too
+					var nt *biscuit.Biscuit
+					if r.Chance(1, 2) {
+						nt, err = sharedDecoder.Unmarshal(d)
+						op = "serialize+unmarshal(shared decoder) " + p.name
+					} else {
+						nt, err = biscuit.Unmarshal(d)
+						op = "serialize+unmarshal " + p.name
+					}
+					if err == nil {
 						toks = append(toks, &famTok{tok: nt, blocks: p.blocks, sealed: p.sealed, name: fmt.Sprintf("t%d", len(toks))})
 					}
 				}
-				op = "serialize+unmarshal " + p.name
 			case k < 19 && len(toks) > 0:
 				p := Pick(r, toks)
 				f := freshFact()
